@@ -112,6 +112,9 @@ FileRules(d, e) ==
 ModelRules(e) ==
   If(e.exists /\ e.path \in o.known /\ e.path \in DOMAIN o.content /\ o.content[e.path] # e.cells, "HarnessFileModelMismatch")
 
+WrongPath(e) == If(e.path >= 900 \/ (o.cur[e.d] = "start" /\ o.path[e.d] # 0 /\
+                                       e.path \notin {o.path[e.d], 100 + o.path[e.d], 200 + o.path[e.d]}), "OpenWrongPath")
+
 \* ---- one step per trace line ----------------------------------------------------------------------------
 Step ==
   /\ l <= Len(Tr) /\ ~done /\ l' = l + 1 /\ done' = FALSE
@@ -133,7 +136,7 @@ Step ==
             LET d == e.d IN
             CASE e.op = "set" ->
                    /\ Flag(<<>>)
-                   /\ o' = [o EXCEPT !.cur[d] = "none", !.path[d] = IF e.st = ARMED THEN o.setPath[d] ELSE o.path[d]]
+                   /\ o' = [o EXCEPT !.cur[d] = "none", !.path[d] = IF e.rc = 0 THEN o.setPath[d] ELSE o.path[d]]   \* (accepted: Armed, or still Running)
               [] e.op = "start" ->
                    /\ Flag(If(e.st = RUNNING /\ o.mkFail[d], "RunningAfterCreateFailed"))
                    /\ o' = [o EXCEPT !.cur[d] = "none", !.clean[d] = (e.st = RUNNING),
@@ -147,9 +150,12 @@ Step ==
                    /\ o' = [o EXCEPT !.cur[d] = "none", !.pend[d] = FALSE]
               [] OTHER -> Flag(<<>>) /\ o' = [o EXCEPT !.cur[d] = "none"]
        [] k = "Open" ->
-            IF e.r < 0 THEN Flag(<<>>) /\ o' = [o EXCEPT !.pend[e.d] = TRUE, !.mkFail[e.d] = TRUE]
+            IF e.r < 0 THEN Flag(WrongPath(e)) /\ o' = [o EXCEPT !.pend[e.d] = TRUE, !.mkFail[e.d] = TRUE]
             ELSE IF e.r \notin Fds THEN Flag(<<"HarnessBadEvent">>) /\ o' = o
-            ELSE /\ Flag(If(o.synced /\ e.r # LowestFree, "HarnessFdNotLowestFree"))
+            ELSE /\ Flag(If(o.synced /\ e.r # LowestFree, "HarnessFdNotLowestFree")
+                         \* C14 / C15: the file created by a start is the one named by the accepted configuration (its data.tif /
+                         \* metadata.json for the composite), whatever the spelling of the URI; ids from 900 are paths nobody configured
+                         \o WrongPath(e))
                  /\ o' = [o EXCEPT !.fdt[e.r] = e.path,
                                    !.owned[e.d] = o.owned[e.d] \cup {e.r},
                                    !.closedBy[e.d] = o.closedBy[e.d] \ {e.r},
